@@ -78,12 +78,189 @@ def _with_items(m: pf.Module, fn: pf.FuncDef, node: ast.AST) -> List[Tuple[ast.A
 
 
 # ------------------------------------------------------------------------------------------------
+# seeing through the usual behaviour-preserving rewrites
+# ------------------------------------------------------------------------------------------------
+
+ANALYSED_METHODS = ('__init__', '__aenter__', '__aexit__', 'call', 'wait', '_shutdown')
+
+
+def _prepared(m: pf.Module) -> pf.Module:
+    """The module with private helpers inlined into the functions the rules look at (extract-method is the most common refactor): helper
+    methods of OnlineBoundedGather2 / WithoutSemaphore other than the analysed ones, and module-level helpers called from the gatherers.
+    Whatever the inliner cannot expand stays a call (the rules then decline or see nothing, as before)."""
+    from engines import inline as inl
+    m2 = m
+    try:
+        for meth in ('__aexit__', 'wait', 'call', '_shutdown'):
+            m2, _ = inl.inline_methods(m2, OBG, meth, exclude=ANALYSED_METHODS)
+        for meth in ('__aenter__', '__aexit__'):
+            m2, _ = inl.inline_methods(m2, WS, meth, exclude=ANALYSED_METHODS)
+        fam = tuple(_family(m))
+        for fn in (GR, GE):
+            m2, _ = inl.inline_functions(m2, fn, exclude=fam)
+    except AnalysisError:
+        raise
+    except Exception as e:  # the inliner met something it was not written for: analyse the module as it is
+        raise AnalysisError(f'helper inlining failed ({type(e).__name__}: {e})')
+    return m2
+
+
+def _res(fn: Optional[pf.FuncDef], e: ast.AST) -> ast.AST:
+    """`e` with a local that is bound exactly once followed to its defining expression (also an awaited one)."""
+    return pf.resolve_expr(fn, e) if fn is not None and isinstance(e, ast.Name) else e
+
+
+def _xt(fn: Optional[pf.FuncDef], test: ast.AST) -> ast.AST:
+    """A test with boolean locals (`finished = t.done()`) replaced by what they hold."""
+    return pf.expand_locals(fn, test) if fn is not None else test
+
+
+def _forces(test: ast.AST, lab: str, allowed) -> Optional[bool]:
+    """Does leaving `test` through the edge `lab` ('T' / 'F') force the property P?  `allowed(atom, P)` gives the truth values the atom can take
+    when P has that value (None: the atom says nothing about P).  True / False = P is forced to that value, None = not forced."""
+    import itertools
+    from engines import absdom
+    atoms = absdom.bool_atoms(test)
+    keys = [absdom.atom_key(x) for x in atoms]
+    want = lab == 'T'
+    possible: Dict[bool, bool] = {}
+    related = False
+    for P in (True, False):
+        doms = []
+        for x in atoms:
+            d = allowed(x, P)
+            if d is not None:
+                related = True
+            doms.append(sorted(d) if d is not None else [False, True])
+        possible[P] = any(absdom.eval_bool(test, lambda x, v=dict(zip(keys, combo)): v[absdom.atom_key(x)]) == want for combo in itertools.product(*doms))
+    if not related:
+        return None
+    if possible[True] and not possible[False]:
+        return True
+    if possible[False] and not possible[True]:
+        return False
+    return None
+
+
+def _cmp_const_right(a: ast.AST) -> ast.AST:
+    """`0 < len(x)` as `len(x) > 0`."""
+    flip = {ast.Lt: ast.Gt, ast.LtE: ast.GtE, ast.Gt: ast.Lt, ast.GtE: ast.LtE, ast.Eq: ast.Eq, ast.NotEq: ast.NotEq}
+    if isinstance(a, ast.Compare) and len(a.ops) == 1 and isinstance(a.left, ast.Constant) and not isinstance(a.comparators[0], ast.Constant) and type(a.ops[0]) in flip:
+        return ast.Compare(left=a.comparators[0], ops=[flip[type(a.ops[0])]()], comparators=[a.left])
+    return a
+
+
+def _sem_nonempty(x: str):
+    """P: the container `x` is neither None nor empty."""
+    def allowed(a: ast.AST, P: bool):
+        a = _cmp_const_right(a)
+        s = pf.nsrc(a)
+        if s in (x, f'bool({x})', f'len({x})'):
+            return {P}
+        if isinstance(a, ast.Compare) and len(a.ops) == 1 and isinstance(a.comparators[0], ast.Constant):
+            l, op, k = pf.nsrc(a.left), type(a.ops[0]), a.comparators[0].value
+            if l == f'len({x})' and isinstance(k, int) and not isinstance(k, bool):
+                if (op, k) in ((ast.Gt, 0), (ast.NotEq, 0), (ast.GtE, 1)):
+                    return {P}
+                if (op, k) in ((ast.Eq, 0), (ast.Lt, 1), (ast.LtE, 0)):
+                    return {not P}
+            if l == x and k is None:
+                if op in (ast.Is, ast.Eq):
+                    return {False} if P else {True, False}
+                if op in (ast.IsNot, ast.NotEq):
+                    return {True} if P else {True, False}
+        return None
+    return allowed
+
+
+def _sem_none(x: str):
+    """P: `x` is None."""
+    def allowed(a: ast.AST, P: bool):
+        s = pf.nsrc(a)
+        if s in (x, f'bool({x})'):
+            return {False} if P else {True, False}
+        if isinstance(a, ast.Compare) and len(a.ops) == 1 and isinstance(a.comparators[0], ast.Constant) and a.comparators[0].value is None and pf.nsrc(a.left) == x:
+            if isinstance(a.ops[0], (ast.Is, ast.Eq)):
+                return {P}
+            if isinstance(a.ops[0], (ast.IsNot, ast.NotEq)):
+                return {not P}
+        return None
+    return allowed
+
+
+def _sem_truthy(xs: Sequence[str]):
+    """P: the value of (any of the aliases) `xs` is truthy / not None (an exception object, a flag, the result of a call such as `t.done()`)."""
+    xs = set(xs)
+
+    def allowed(a: ast.AST, P: bool):
+        s = pf.nsrc(a)
+        if s in xs or (isinstance(a, ast.Call) and pf.dotted(a.func) == 'bool' and len(a.args) == 1 and pf.nsrc(a.args[0]) in xs):
+            return {P}
+        if isinstance(a, ast.Compare) and len(a.ops) == 1 and isinstance(a.comparators[0], ast.Constant) and pf.nsrc(a.left) in xs:
+            k, op = a.comparators[0].value, a.ops[0]
+            if k is None or k is False:
+                if isinstance(op, (ast.Is, ast.Eq)):
+                    return {not P}
+                if isinstance(op, (ast.IsNot, ast.NotEq)):
+                    return {P}
+            if k is True:
+                if isinstance(op, (ast.Is, ast.Eq)):
+                    return {P}
+                if isinstance(op, (ast.IsNot, ast.NotEq)):
+                    return {not P}
+        return None
+    return allowed
+
+
+def _every_path_forces(cfg: pf.CFG, node: pf.Node, allowed, value: bool, fn: Optional[pf.FuncDef] = None) -> bool:
+    """Every path entry -> node takes an edge that forces P == value."""
+    def forcing(a: pf.Node, lab: str) -> bool:
+        return a.kind == 'test' and lab in ('T', 'F') and _forces(_xt(fn, a.ast), lab, allowed) is value
+    return cfg.path_avoiding(cfg.entry, lambda n: n is node, lambda n: False, edge_ok=lambda a, b, lab: not forcing(a, lab)) is None
+
+
+def _is_sema(fn: Optional[pf.FuncDef], e: ast.AST, sema: str, chain: Sequence[pf.FuncDef] = ()) -> bool:
+    """`e` denotes the semaphore `sema` (directly or through a local alias bound once, in the function or an enclosing one)."""
+    if pf.nsrc(e) == sema:
+        return True
+    if isinstance(e, ast.Name):
+        for f in [fn] + list(chain):
+            if f is None:
+                continue
+            d = pf.single_def(f, e.id)
+            if isinstance(d, ast.expr):
+                return pf.nsrc(d) == sema
+    return False
+
+
+def _ws_of(fn: Optional[pf.FuncDef], e: ast.AST) -> Optional[ast.Call]:
+    """The `WithoutSemaphore(...)` call a context expression denotes (directly or through a local bound once)."""
+    e = _res(fn, e)
+    return e if isinstance(e, ast.Call) and pf.dotted(e.func) == WS else None
+
+
+def _ws_sema_arg(c: ast.Call) -> Optional[ast.AST]:
+    if c.args and not isinstance(c.args[0], ast.Starred):
+        return c.args[0]
+    for k in c.keywords:
+        if k.arg in ('sema', 'semaphore'):
+            return k.value
+    return None
+
+
+def _manual(fn: pf.FuncDef, sema_aliases, attr: str) -> List[ast.Call]:
+    """Calls `<sema>.acquire()` / `<sema>.release()` written out by hand anywhere in fn (nested defs included)."""
+    return [c for c in ast.walk(fn) if isinstance(c, ast.Call) and isinstance(c.func, ast.Attribute) and c.func.attr == attr and sema_aliases(c.func.value)]
+
+
+# ------------------------------------------------------------------------------------------------
 # R1
 # ------------------------------------------------------------------------------------------------
 
 
 def _r1(ctx: Ctx, m: pf.Module) -> None:
     targets = [(GR, m.func(GR), None), (GE, m.func(GE), None), (f'{OBG}.call', m.func(f'{OBG}.call'), 'self._sema')]
+    par = m.parents()
     for qn, outer, sema in targets:
         if sema is None:
             sema = outer.args.args[0].arg
@@ -91,7 +268,8 @@ def _r1(ctx: Ctx, m: pf.Module) -> None:
         user: Set[str] = set()
         if qn.endswith('.call'):
             user.add(outer.args.args[1].arg)
-        for nd in _nested_defs(outer):
+        nested = _nested_defs(outer)
+        for nd in nested:
             for a in nd.args.args:
                 user.add(a.arg)
         for n in ast.walk(outer):
@@ -103,10 +281,24 @@ def _r1(ctx: Ctx, m: pf.Module) -> None:
         calls = [c for c in ast.walk(outer) if isinstance(c, ast.Call) and ((isinstance(c.func, ast.Name) and c.func.id in user) or (
             vararg is not None and isinstance(c.func, ast.Subscript) and isinstance(c.func.value, ast.Name) and c.func.value.id == vararg))]
         ctx.need(calls, f'{qn}: no invocation of a user function found (idiom not recognised)')
+
+        def held_at(node: ast.AST, host: pf.FuncDef) -> bool:
+            chain = [f for f in [outer] + nested if f is not host]
+            return any(isinstance(w, ast.AsyncWith) and _is_sema(host, e, sema, chain) for w, e in _with_items(m, host, node))  # type: ignore[arg-type]
+
+        by_hand = _manual(outer, lambda v: _is_sema(None, v, sema) or isinstance(v, ast.Name), 'acquire')
         for c in calls:
             host = m.enclosing_func(c)
             cons = f'{F}::{m.qualname(host)}::{pf.nsrc(c)}'
-            held = any(isinstance(w, ast.AsyncWith) and pf.nsrc(e) == sema for w, e in _with_items(m, host, c))  # type: ignore[arg-type]
+            held = held_at(c, host)
+            if not held and host is not outer and host in nested:
+                # a helper of the wrapper: the slot is held when every use of the helper is a call made while holding it
+                uses = [n for n in ast.walk(outer) if isinstance(n, ast.Name) and n.id == host.name and isinstance(n.ctx, ast.Load)]
+                sites = [par.get(u) for u in uses]
+                if uses and all(isinstance(s2, ast.Call) and s2.func is u and held_at(s2, m.enclosing_func(s2)) for s2, u in zip(sites, uses)):
+                    held = True
+            if not held:
+                ctx.need(not by_hand, f'{qn}: `{pf.nsrc(by_hand[0]) if by_hand else ""}` acquires the semaphore by hand; whether `{pf.nsrc(c)}` runs while the slot is held is not decided')
             ctx.check(held, 'R1', cons, f'the user function is invoked outside `async with {sema}`: it runs without holding a slot, so more than the bound run at once',
                       m.path, c.lineno)
 
@@ -127,11 +319,20 @@ def _r2(ctx: Ctx, m: pf.Module) -> None:
     for qn, fn, sema in sites:
         if sema is None:
             sema = fn.args.args[0].arg
+        by_hand = _manual(fn, lambda v: _is_sema(fn, v, sema), 'release')
+        seen: Dict[str, int] = {}
         for a in _own_nodes(fn):
             if isinstance(a, ast.Await) and _is_parent_wait(a):
-                cons = f'{F}::{qn}::{pf.nsrc(a)}'
-                ok = any(isinstance(w, ast.AsyncWith) and isinstance(e, ast.Call) and pf.dotted(e.func) == WS and [pf.nsrc(x) for x in e.args[:1]] == [sema]
-                         for w, e in _with_items(m, fn, a))
+                txt = pf.nsrc(a)
+                seen[txt] = seen.get(txt, 0) + 1
+                cons = f'{F}::{qn}::{txt}' + (f'#{seen[txt]}' if seen[txt] > 1 else '')
+                ok = False
+                for w, e in _with_items(m, fn, a):
+                    c = _ws_of(fn, e) if isinstance(w, ast.AsyncWith) else None
+                    if c is not None and _ws_sema_arg(c) is not None and _is_sema(fn, _ws_sema_arg(c), sema):
+                        ok = True
+                if not ok:
+                    ctx.need(not by_hand, f'{qn}: the semaphore is released by hand (`{pf.nsrc(by_hand[0]) if by_hand else ""}`); whether the parent still holds its slot at `{txt}` is not decided')
                 ctx.check(ok, 'R2', cons, f'the parent waits for its children while still holding its slot of `{sema}` (not inside `async with {WS}({sema})`): '
                           f'with all slots held by waiting parents no child can start and the gather never returns', m.path, a.lineno)
 
@@ -141,6 +342,38 @@ def _r2(ctx: Ctx, m: pf.Module) -> None:
 # ------------------------------------------------------------------------------------------------
 
 
+TASK_MAKERS = ('asyncio.create_task', 'asyncio.ensure_future')
+UNORDERED = ('set', 'frozenset', 'reversed', 'sorted', 'random.sample', 'random.shuffle')
+
+
+def _task_list(ctx: Ctx, fn: pf.FuncDef, qn: str, vararg: str):
+    """The statement that builds the task list and the list as a comprehension: `tasks = [create_task(w(pf)) for pf in pfs]` or the loop
+    `tasks = []; for pf in pfs: tasks.append(create_task(w(pf)))` it abbreviates."""
+    makes = lambda e: any(isinstance(c, ast.Call) and pf.dotted(c.func) in TASK_MAKERS for c in ast.walk(e))  # noqa: E731
+    comps = [(st, st.value, st.targets[0] if isinstance(st, ast.Assign) else st.target) for st in fn.body
+             if ((isinstance(st, ast.Assign) and len(st.targets) == 1) or (isinstance(st, ast.AnnAssign) and st.value is not None))
+             and isinstance(st.value, (ast.ListComp, ast.GeneratorExp, ast.SetComp, ast.Call)) and makes(st.value)]
+    loops = [st for st in fn.body if isinstance(st, ast.For) and makes(st)]
+    if len(comps) == 1 and not loops and isinstance(comps[0][2], ast.Name):
+        st, comp, tgt = comps[0]
+        return st, comp, tgt.id, None
+    ctx.need(len(loops) == 1 and not comps, f'{qn}: task list construction not recognised')
+    lp = loops[0]
+    ok = len(lp.body) == 1 and not lp.orelse and isinstance(lp.body[0], ast.Expr) and isinstance(lp.body[0].value, ast.Call) and isinstance(lp.body[0].value.func, ast.Attribute) \
+        and lp.body[0].value.func.attr == 'append' and isinstance(lp.body[0].value.func.value, ast.Name) and len(lp.body[0].value.args) == 1 and not lp.body[0].value.keywords
+    ctx.need(ok, f'{qn}: task list construction not recognised (loop body is not a single `<list>.append(<task>)`)')
+    app = lp.body[0].value  # type: ignore[attr-defined]
+    tname = app.func.value.id
+    inits = [st for st in fn.body if ((isinstance(st, ast.Assign) and len(st.targets) == 1 and isinstance(st.targets[0], ast.Name) and st.targets[0].id == tname)
+                                      or (isinstance(st, ast.AnnAssign) and isinstance(st.target, ast.Name) and st.target.id == tname and st.value is not None))]
+    ctx.need(len(inits) == 1 and ((isinstance(inits[0].value, ast.List) and not inits[0].value.elts) or (isinstance(inits[0].value, ast.Call) and pf.dotted(inits[0].value.func) == 'list'
+                                                                                                         and not inits[0].value.args)) and fn.body.index(inits[0]) < fn.body.index(lp),
+             f'{qn}: `{tname}` is not initialised to an empty list ahead of the loop that fills it')
+    comp = ast.copy_location(ast.ListComp(elt=app.args[0], generators=[ast.comprehension(target=lp.target, iter=lp.iter, ifs=[], is_async=0)]), lp)
+    ast.fix_missing_locations(comp)
+    return lp, comp, tname, app
+
+
 def _r3(ctx: Ctx, m: pf.Module) -> Dict[str, str]:
     tasks_name: Dict[str, str] = {}
     for qn in (GR, GE):
@@ -148,35 +381,72 @@ def _r3(ctx: Ctx, m: pf.Module) -> Dict[str, str]:
         vararg = fn.args.vararg.arg if fn.args.vararg else None
         ctx.need(vararg is not None, f'{qn}: no *pfs parameter')
         wrappers = {nd.name for nd in _nested_defs(fn)}
-        comps = [(st, st.value) for st in fn.body if isinstance(st, ast.Assign) and isinstance(st.value, (ast.ListComp, ast.GeneratorExp, ast.SetComp, ast.Call))
-                 and any(isinstance(c, ast.Call) and pf.dotted(c.func) in ('asyncio.create_task', 'asyncio.ensure_future') for c in ast.walk(st.value))]
-        ctx.need(len(comps) == 1 and isinstance(comps[0][0].targets[0], ast.Name), f'{qn}: task list construction not recognised')
-        st, comp = comps[0]
-        tname = st.targets[0].id
+        st, comp, tname, app = _task_list(ctx, fn, qn, vararg)
         tasks_name[qn] = tname
-        cons = f'{F}::{qn}::{pf.nsrc(st)}'
-        ok = isinstance(comp, ast.ListComp) and len(comp.generators) == 1 and not comp.generators[0].ifs and not comp.generators[0].is_async \
-            and isinstance(comp.generators[0].iter, ast.Name) and comp.generators[0].iter.id == vararg and isinstance(comp.generators[0].target, ast.Name)
+        cons = f'{F}::{qn}::task list'
+        shown = pf.nsrc(st)[:160]
+        gens = comp.generators if isinstance(comp, (ast.ListComp, ast.GeneratorExp, ast.SetComp)) else []
+        ok = isinstance(comp, ast.ListComp) and len(gens) == 1 and not gens[0].ifs and not gens[0].is_async \
+            and isinstance(gens[0].iter, ast.Name) and gens[0].iter.id == vararg and isinstance(gens[0].target, ast.Name)
         if ok:
-            v = comp.generators[0].target.id  # type: ignore[union-attr]
+            v = gens[0].target.id  # type: ignore[union-attr]
             e = comp.elt  # type: ignore[union-attr]
-            ok = isinstance(e, ast.Call) and pf.dotted(e.func) in ('asyncio.create_task', 'asyncio.ensure_future') and len(e.args) == 1 \
-                and isinstance(e.args[0], ast.Call) and pf.dotted(e.args[0].func) in wrappers and [pf.nsrc(x) for x in e.args[0].args] == [v]
-        ctx.check(ok, 'R3', cons, f'`{pf.nsrc(st)}` is not `[asyncio.create_task(<wrapper>(pf)) for pf in {vararg}]`: tasks are not one per partial function in '
-                  f'submission order (filtered / reordered / not wrapped)', m.path, st.lineno)
-        ctx.need(len(pf.assignments(fn).get(tname, [])) == 1, f'{qn}: `{tname}` is re-bound')
-        muts = [c for c in ast.walk(fn) if isinstance(c, ast.Call) and isinstance(c.func, ast.Attribute) and pf.nsrc(c.func.value) == tname
+            ok = isinstance(e, ast.Call) and pf.dotted(e.func) in TASK_MAKERS and len(e.args) == 1 \
+                and isinstance(e.args[0], ast.Call) and pf.dotted(e.args[0].func) in wrappers and [pf.nsrc(x) for x in e.args[0].args] == [v] and not e.args[0].keywords
+        if ok:
+            ctx.ok('R3', cons, f'`{shown}`: one task per partial function, in submission order')
+        else:
+            # positive evidence that the order / the one-to-one correspondence is lost: a set, a filter, a re-ordering of *pfs
+            unordered = isinstance(comp, ast.SetComp) or (isinstance(comp, ast.Call) and pf.dotted(comp.func) in UNORDERED) \
+                or any(isinstance(c, ast.Call) and pf.dotted(c.func) in UNORDERED and any(isinstance(x, ast.Name) and x.id == vararg for x in ast.walk(c)) for c in ast.walk(comp))
+            filtered = any(g.ifs for g in gens)
+            if unordered or filtered:
+                ctx.bad('R3', cons, f'`{shown}` is not `[asyncio.create_task(<wrapper>(pf)) for pf in {vararg}]`: the tasks are '
+                        + ('kept in / taken from an unordered or re-ordered collection' if unordered else 'filtered') + ', so results are not one per partial function in submission order',
+                        m.path, st.lineno)
+            else:
+                direct = isinstance(comp, ast.ListComp) and isinstance(comp.elt, ast.Call) and pf.dotted(comp.elt.func) in TASK_MAKERS and len(comp.elt.args) == 1 \
+                    and isinstance(comp.elt.args[0], ast.Call) and isinstance(comp.elt.args[0].func, ast.Name) and len(gens) == 1 and isinstance(gens[0].target, ast.Name) \
+                    and comp.elt.args[0].func.id == gens[0].target.id
+                # `create_task(pf())`: the partial function itself is the task - order is kept, the missing slot is R1's business
+                ctx.need(direct, f'{qn}: `{shown}` is not recognised as one task per partial function in submission order')
+                ctx.ok('R3', cons, f'`{shown}`: one task per partial function, in submission order (not wrapped)')
+        n_defs = len(pf.assignments(fn).get(tname, []))
+        ctx.need(n_defs == 1, f'{qn}: `{tname}` is re-bound')
+        muts = [c for c in ast.walk(fn) if isinstance(c, ast.Call) and isinstance(c.func, ast.Attribute) and pf.nsrc(c.func.value) == tname and c is not app
                 and c.func.attr in ('sort', 'reverse', 'append', 'insert', 'pop', 'remove', 'extend', 'clear')]
         ctx.need(not muts, f'{qn}: `{tname}` is mutated by `{pf.nsrc(muts[0])}`' if muts else '')
         rets = [r for r in _own_nodes(fn) if isinstance(r, ast.Return)]
         ctx.need(rets, f'{qn}: no return')
+        nret = 0
         for r in rets:
-            cons = f'{F}::{qn}::{pf.nsrc(r)}'
-            v = r.value
-            ok = isinstance(v, ast.Await) and isinstance(v.value, ast.Call) and pf.dotted(v.value.func) == 'asyncio.gather' and not v.value.keywords \
-                and [pf.nsrc(x) for x in v.value.args] == [f'*{tname}']
-            ctx.check(ok, 'R3', cons, f'`{pf.nsrc(r)}` does not return `await asyncio.gather(*{tname})`: results are not the task results in submission order '
-                      f'(or exceptions are no longer raised / returned as documented)', m.path, r.lineno)
+            nret += 1
+            cons = f'{F}::{qn}::result' + (f'#{nret}' if nret > 1 else '')
+            v = _res(fn, r.value) if r.value is not None else None
+            g = v.value if isinstance(v, ast.Await) and isinstance(v.value, ast.Call) and pf.dotted(v.value.func) == 'asyncio.gather' else None
+            if g is not None and not g.keywords and [pf.nsrc(x) for x in g.args] == [f'*{tname}']:
+                ctx.ok('R3', cons, f'`{pf.nsrc(r)}` is `await asyncio.gather(*{tname})`')
+                continue
+            why = None
+            if g is not None:
+                kw = {k.arg: k.value for k in g.keywords}
+                rex = kw.get('return_exceptions')
+                if rex is not None and not (isinstance(rex, ast.Constant) and not rex.value):
+                    why = f'passes return_exceptions={pf.nsrc(rex)} to asyncio.gather: exceptions are returned among the results instead of the first one being raised / the pairs being returned'
+                elif any(isinstance(c, ast.Call) and pf.dotted(c.func) in UNORDERED for x in g.args for c in ast.walk(x)):
+                    why = 'gathers a re-ordered collection of the tasks'
+            elif v is not None:
+                # results collected from `asyncio.wait` / `as_completed`: completion order, not submission order
+                srcs = list(ast.walk(v))
+                for n in ast.walk(v):
+                    if isinstance(n, ast.Name):
+                        for d in pf.assignments(fn).get(n.id, []):
+                            if isinstance(d, ast.AST):
+                                srcs += list(ast.walk(d))
+                if any(isinstance(c, ast.Call) and pf.dotted(c.func) in ('asyncio.wait', 'asyncio.as_completed') for c in srcs):
+                    why = 'builds the result from the done-set of asyncio.wait / as_completed: completion order, not submission order'
+            ctx.need(why is not None, f'{qn}: `{pf.nsrc(r)[:100]}` is not recognised as returning the gathered task results')
+            ctx.bad('R3', cons, f'`{pf.nsrc(r)[:120]}` does not return `await asyncio.gather(*{tname})`: it {why}', m.path, r.lineno)
     # forwarding
     g2 = m.func(G2)
     g2p = [a.arg for a in g2.args.args]
@@ -185,39 +455,58 @@ def _r3(ctx: Ctx, m: pf.Module) -> Dict[str, str]:
     calls = [c for c in _own_nodes(g2) if isinstance(c, ast.Call) and pf.dotted(c.func) in (GR, GE)]
     ctx.need({pf.dotted(c.func) for c in calls} == {GR, GE}, f'{G2}: expected calls of both {GR} and {GE}')
     cfg = pf.cfg(g2)
+    FLAG, REX = 'cancel_on_error', 'return_exceptions'
+    ctx.need(FLAG in [a.arg for a in g2.args.kwonlyargs + g2.args.args] and REX in [a.arg for a in g2.args.kwonlyargs + g2.args.args], f'{G2}: flags renamed')
+    ctx.need(len(pf.assignments(g2).get(FLAG, [])) == 1 and len(pf.assignments(g2).get(REX, [])) == 1, f'{G2}: a flag is re-assigned')
 
-    def implied_false_at(node: pf.Node, flag: str) -> bool:
-        return cfg.path_avoiding(cfg.entry, lambda n: n is node, lambda n: False,
-                                 edge_ok=lambda a, b, lab: not (a.kind == 'test' and lab in ('T', 'F') and af.implied_on_edge(a.ast, lab, flag, False))) is None
     seen: Dict[str, int] = {}
     for c in calls:
         nm = pf.dotted(c.func)
         seen[nm] = seen.get(nm, 0) + 1
         cons = f'{F}::{G2}::{nm}(...)' + (f'#{seen[nm]}' if seen[nm] > 1 else '')
-        ok = [pf.nsrc(x) for x in c.args] == [g2p[0], f'*{g2v}']
-        kw = {k.arg: pf.nsrc(k.value) for k in c.keywords}
         host = [n for n in cfg.nodes if n.ast is not None and any(x is c for e in pf.node_exprs(n) for x in ast.walk(e))]
         ctx.need(len(host) == 1, f'{G2}: call `{pf.nsrc(c)}` not located in the CFG')
-        if nm == GR:
-            ok = ok and (kw == {'cancel_on_error': 'cancel_on_error'} or (kw in ({}, {'cancel_on_error': 'False'}) and implied_false_at(host[0], 'cancel_on_error')))
+        ctx.need([pf.nsrc(_res(g2, x)) if not isinstance(x, ast.Starred) else pf.nsrc(x) for x in c.args] == [g2p[0], f'*{g2v}'] and all(k.arg is not None for k in c.keywords),
+                 f'{G2}: `{pf.nsrc(c)[:100]}` does not pass ({g2p[0]}, *{g2v}) in a recognised form')
+        kw = {k.arg: pf.nsrc(pf.expand_locals(g2, k.value)) for k in c.keywords}
+        ctx.need(set(kw) <= {FLAG}, f'{G2}: `{pf.nsrc(c)[:100]}` passes unknown keywords')
+        if nm == GE:
+            ctx.need(not kw, f'{G2}: `{pf.nsrc(c)[:100]}` passes {FLAG} to {GE}')
+            ctx.ok('R3', cons, 'forwards the semaphore and *pfs')
+            continue
+        const_false = kw.get(FLAG, 'False') == 'False'
+        if kw.get(FLAG) in (FLAG, f'bool({FLAG})') or (const_false and _every_path_forces(cfg, host[0], _sem_truthy([FLAG]), False, g2)):
+            ctx.ok('R3', cons, 'forwards the semaphore, *pfs and cancel_on_error')
+        elif const_false or kw.get(FLAG) == 'True' or kw.get(FLAG) == f'not {FLAG}':
+            ctx.bad('R3', cons, f'`{pf.nsrc(c)}` does not forward ({g2p[0]}, *{g2v}) and the cancel_on_error flag unchanged: the callee sees '
+                    f'{FLAG}={kw.get(FLAG, "False (its default)")} whatever the caller asked for', m.path, c.lineno)
         else:
-            ok = ok and kw == {}
-        ctx.check(ok, 'R3', cons, f'`{pf.nsrc(c)}` does not forward ({g2p[0]}, *{g2v}) and the cancel_on_error flag unchanged', m.path, c.lineno)
+            raise AnalysisError(f'{G2}: `{pf.nsrc(c)[:100]}`: the value passed as {FLAG} is not understood')
     # dispatch on return_exceptions
     ge_nodes = af.stmt_nodes(cfg, lambda n: af.node_is_call(n, GE) is not None)
     gr_nodes = af.stmt_nodes(cfg, lambda n: af.node_is_call(n, GR) is not None)
-    tests = [t for t in cfg.nodes if t.kind == 'test' and pf.nsrc(t.ast) == 'return_exceptions']
-    ok = len(tests) == 1 and len(ge_nodes) >= 1 and len(gr_nodes) >= 1 and all(af.every_path_uses_edge(cfg, x, tests[0], 'T') for x in ge_nodes) \
-        and all(af.every_path_uses_edge(cfg, x, tests[0], 'F') for x in gr_nodes)
-    ctx.check(ok, 'R3', f'{F}::{G2}::dispatch', 'bounded_gather2 does not select the return-exceptions variant iff return_exceptions is true', m.path, g2.lineno)
+    ctx.need(len(ge_nodes) >= 1 and len(gr_nodes) >= 1, f'{G2}: delegations not found in the CFG')
+    sem = _sem_truthy([REX])
+    right = all(_every_path_forces(cfg, x, sem, True, g2) for x in ge_nodes) and all(_every_path_forces(cfg, x, sem, False, g2) for x in gr_nodes)
+    wrong = any(_every_path_forces(cfg, x, sem, False, g2) for x in ge_nodes) or any(_every_path_forces(cfg, x, sem, True, g2) for x in gr_nodes)
+    unguarded = not any(t.kind == 'test' and af.mentions(_xt(g2, t.ast), REX) for t in cfg.nodes)
+    ctx.need(right or wrong or unguarded, f'{G2}: how {REX} selects between {GE} and {GR} is not understood')
+    ctx.check(right, 'R3', f'{F}::{G2}::dispatch', 'bounded_gather2 does not select the return-exceptions variant iff return_exceptions is true'
+              + (' (no test looks at the flag)' if unguarded else ' (the variants are selected the other way round)'), m.path, g2.lineno)
     g1 = m.func(G1)
     g1v = g1.args.vararg.arg if g1.args.vararg else None
     calls = [c for c in _own_nodes(g1) if isinstance(c, ast.Call) and pf.dotted(c.func) == G2]
     ctx.need(len(calls) >= 1 and g1v is not None, f'{G1}: expected a call of {G2}')
     for i, c in enumerate(calls):
-        kw = {k.arg: pf.nsrc(k.value) for k in c.keywords}
-        ok = len(c.args) == 2 and pf.nsrc(c.args[1]) == f'*{g1v}' and kw == {'return_exceptions': 'return_exceptions', 'cancel_on_error': 'cancel_on_error'}
-        ctx.check(ok, 'R3', f'{F}::{G1}::{G2}(...)' + (f'#{i + 1}' if i else ''), f'`{pf.nsrc(c)}` does not forward *{g1v}, return_exceptions and cancel_on_error unchanged', m.path, c.lineno)
+        cons = f'{F}::{G1}::{G2}(...)' + (f'#{i + 1}' if i else '')
+        ctx.need(len(c.args) == 2 and pf.nsrc(c.args[1]) == f'*{g1v}' and all(k.arg is not None for k in c.keywords), f'{G1}: `{pf.nsrc(c)[:100]}` does not pass (<semaphore>, *{g1v}) in a recognised form')
+        kw = {k.arg: pf.nsrc(pf.expand_locals(g1, k.value)) for k in c.keywords}
+        ok = kw == {REX: REX, FLAG: FLAG}
+        if not ok:
+            # evidence: a flag the caller may set is not handed on at all, or is replaced by a constant
+            lost = [f for f in (REX, FLAG) if f not in kw or kw[f] in ('True', 'False', 'None')]
+            ctx.need(bool(lost) and set(kw) <= {REX, FLAG}, f'{G1}: `{pf.nsrc(c)[:100]}`: the flags handed on are not understood ({kw})')
+        ctx.check(ok, 'R3', cons, f'`{pf.nsrc(c)}` does not forward *{g1v}, return_exceptions and cancel_on_error unchanged', m.path, c.lineno)
     return tasks_name
 
 
@@ -267,22 +556,45 @@ def _iteration_paths(cfg: pf.CFG, H: pf.Node, body_nodes: Set[int], limit: int =
 
 
 def _loop_verdict(cfg: pf.CFG, loop: ast.For, vars_: Set[str]):
-    """For a clean-up loop: (early exits, iteration paths that neither cancel nor establish done)."""
+    """For a clean-up loop: (early exits, iteration paths that provably neither cancel nor establish done, iteration paths that are not understood).
+    A path is evidence only when every test on it speaks about `<task>.done()` / `<task>.cancelled()` alone; a path through any other test is 'not understood'."""
+    from engines import absdom
     H = [n for n in cfg.nodes if n.kind == 'loop' and n.ast is loop][0]
     inside = {id(x) for s in loop.body for x in ast.walk(s)}
     body_nodes = {n.id for n in cfg.nodes if n.ast is not None and id(n.ast) in inside}
     early = []
     uncancelled = []
+    unclear = []
+    done_sem = _sem_truthy([f'{v}.done()' for v in vars_])
+    known = {f'{v}.{meth}()' for v in vars_ for meth in ('done', 'cancelled')}
     for path, end in _iteration_paths(cfg, H, body_nodes):
         cancels = any(any(pf.dotted(c.func) in {f'{v}.cancel' for v in vars_} for c in pf.node_calls(n)) for n, _ in path[1:])
-        done = any(n.kind == 'test' and lab in ('T', 'F') and any(af.implied_on_edge(n.ast, lab, f'{v}.done()', True) for v in vars_) for n, lab in path[1:])
+        tests = [(_xt(cfg.fn, n.ast), lab) for n, lab in path[1:] if n.kind == 'test' and lab in ('T', 'F')]
+        done = any(_forces(t, lab, done_sem) is True for t, lab in tests)
+        understood = all(absdom.atom_key(x) in known for t, _ in tests for x in absdom.bool_atoms(t))
         if end is H:
             if not (cancels or done):
-                uncancelled.append(path)
+                (uncancelled if understood else unclear).append(path)
         else:
             last = path[-1][0]
             early.append((last, end, cancels or done))
-    return early, uncancelled
+    return early, uncancelled, unclear
+
+
+def _exit_kind(last: pf.Node) -> str:
+    return {'raise': 'raise', 'return': 'return'}.get(last.kind, 'break' if isinstance(last.ast, ast.Break) else last.kind)
+
+
+def _pair(fn: pf.FuncDef, r: ast.Return) -> Optional[Tuple[ast.AST, ast.AST]]:
+    """The two components of a returned pair (`return a, b` or a local bound once to a pair), each followed through locals."""
+    v = _res(fn, r.value) if r.value is not None else None
+    if isinstance(v, ast.Tuple) and len(v.elts) == 2:
+        return _res(fn, v.elts[0]), _res(fn, v.elts[1])
+    return None
+
+
+def _is_none(e: ast.AST) -> bool:
+    return isinstance(e, ast.Constant) and e.value is None
 
 
 def _r4(ctx: Ctx, m: pf.Module, tasks_name: Dict[str, str]) -> None:
@@ -292,30 +604,45 @@ def _r4(ctx: Ctx, m: pf.Module, tasks_name: Dict[str, str]) -> None:
     ctx.need(len(wrappers) == 1, f'{GE}: expected one wrapper coroutine')
     w = wrappers[0]
     body = af.body_no_doc(w)
-    ctx.need(len(body) == 1 and isinstance(body[0], ast.Try), f'{GE}.{w.name}: body is not a single try')
+    ctx.need(len(body) == 1 and isinstance(body[0], ast.Try) and not body[0].finalbody and not body[0].orelse, f'{GE}.{w.name}: body is not a single try/except')
     tr = body[0]
     qn = f'{GE}.{w.name}'
-    catch_all = [h for h in tr.handlers if h.type is None or pf.dotted(h.type) == 'BaseException']
-    first_catch = tr.handlers and (tr.handlers[0] in catch_all)
+
+    def htypes(h: ast.ExceptHandler) -> List[Optional[str]]:
+        return ['BaseException'] if h.type is None else [pf.dotted(x) for x in (h.type.elts if isinstance(h.type, ast.Tuple) else [h.type])]
+    ctx.need(all(t is not None for h in tr.handlers for t in htypes(h)), f'{qn}: handler type not resolved')
+    first_all = next((i for i, h in enumerate(tr.handlers) if 'BaseException' in htypes(h)), None)
     cons = f'{F}::{qn}::catch-all'
-    if not (catch_all and first_catch):
-        ctx.bad('R4', cons, f'the wrapper\'s first handler is `except {pf.nsrc(tr.handlers[0].type) if tr.handlers and tr.handlers[0].type else ""}`, not a catch-all: '
+    if first_all is None:
+        caught = ', '.join(str(t) for h in tr.handlers for t in htypes(h))
+        ctx.bad('R4', cons, f'the wrapper catches only `{caught}`, there is no catch-all handler: '
                 'an exception (e.g. CancelledError, KeyboardInterrupt subclasses of BaseException) escapes the task, asyncio.gather raises it and the other results are lost '
                 'instead of every exception being returned in place', m.path, tr.lineno)
         af.blocked(ctx, 'R4', 'R4')
     else:
-        h = catch_all[0]
-        en = _exc_names(h.body) | ({h.name} if h.name else set())
-        rets = [r for s in h.body for r in ast.walk(s) if isinstance(r, ast.Return)]
-        hcfg = _sub_cfg(h.body)
-        falls = hcfg.path_avoiding(hcfg.entry, lambda n: n is hcfg.exit, lambda n: n.kind in ('return', 'raise')) is not None
-        okh = bool(rets) and not falls and not any(isinstance(r, ast.Raise) for s in h.body for r in ast.walk(s)) and \
-            all(isinstance(r.value, ast.Tuple) and len(r.value.elts) == 2 and pf.nsrc(r.value.elts[0]) == 'None'
-                and isinstance(r.value.elts[1], ast.Name) and r.value.elts[1].id in en for r in rets)
-        ctx.check(okh, 'R4', cons, 'the catch-all handler does not return (None, <the exception>) on every path: a failure is not reported in place', m.path, h.lineno)
+        verdicts = []
+        for h in tr.handlers[:first_all + 1]:
+            en = _exc_names(h.body) | ({h.name} if h.name else set())
+            rets = [r for s in h.body for r in ast.walk(s) if isinstance(r, ast.Return)]
+            hcfg = _sub_cfg(h.body)
+            falls = hcfg.path_avoiding(hcfg.entry, lambda n: n is hcfg.exit, lambda n: n.kind in ('return', 'raise')) is not None
+            raises = any(isinstance(r, ast.Raise) for s in h.body for r in ast.walk(s))
+            pairs = [_pair(w, r) for r in rets]
+            good = bool(rets) and not falls and not raises and all(p is not None and _is_none(p[0]) and isinstance(p[1], ast.Name) and p[1].id in en for p in pairs)
+            # evidence of a failure that is not reported in place: the handler re-raises, falls off its end, or returns the pair the wrong way round / without the exception
+            wrong = falls or raises or any(p is not None and ((isinstance(p[0], ast.Name) and p[0].id in en) or (_is_none(p[0]) and _is_none(p[1]))) for p in pairs) \
+                or any(r.value is None or _is_none(r.value) for r in rets)
+            verdicts.append((h, good, wrong))
+        ctx.need(all(g or wr for _, g, wr in verdicts), f'{qn}: what a handler returns is not recognised as the pair (None, <the exception>)')
+        badh = next((h for h, g, wr in verdicts if not g), None)
+        ctx.check(badh is None, 'R4', cons, 'the catch-all handler does not return (None, <the exception>) on every path: a failure is not reported in place', m.path,
+                  (badh or tr.handlers[first_all]).lineno)
         rets = [r for s in tr.body for r in ast.walk(s) if isinstance(r, ast.Return)]
-        oks = len(rets) >= 1 and all(isinstance(r.value, ast.Tuple) and len(r.value.elts) == 2 and pf.nsrc(r.value.elts[1]) == 'None'
-                                     and isinstance(r.value.elts[0], ast.Await) for r in rets)
+        ctx.need(len(rets) >= 1, f'{qn}: the try body does not return')
+        pairs = [_pair(w, r) for r in rets]
+        oks = all(p is not None and _is_none(p[1]) and isinstance(p[0], ast.Await) for p in pairs)
+        wrongs = any(p is not None and _is_none(p[0]) for p in pairs)
+        ctx.need(oks or wrongs, f'{qn}: what the wrapper returns on success is not recognised as the pair (await pf(), None)')
         ctx.check(oks, 'R4', f'{F}::{qn}::success pair', 'the wrapper does not return (await pf(), None) on success: value/exception positions disagree with the failure pair',
                   m.path, tr.lineno)
 
@@ -338,6 +665,9 @@ def _r4(ctx: Ctx, m: pf.Module, tasks_name: Dict[str, str]) -> None:
                         hc = _sub_cfg(h.body)
                         if hc.path_avoiding(hc.entry, lambda n: n is hc.exit, lambda n: n.kind == 'raise') is not None or \
                                 any(isinstance(r, ast.Return) for s2 in h.body for r in ast.walk(s2)):
+                            ts = ['BaseException'] if h.type is None else [pf.dotted(x) for x in (h.type.elts if isinstance(h.type, ast.Tuple) else [h.type])]
+                            ctx.need(any(t in ('BaseException', 'Exception') for t in ts), f'{GR}.{wfn.name}: `except {pf.nsrc(h.type) if h.type is not None else ""}` can complete without re-raising; '
+                                     f'whether it catches the failure of a partial function is not decided')
                             swallow = h
                 cur = p
             ctx.check(swallow is None, 'R4', cons,
@@ -345,32 +675,43 @@ def _r4(ctx: Ctx, m: pf.Module, tasks_name: Dict[str, str]) -> None:
                       f'finishes normally, asyncio.gather sees no failure, and bounded_gather2(..., return_exceptions=False) returns a placeholder instead of raising the first exception',
                       m.path, swallow.lineno if swallow is not None else c.lineno)
     tname = tasks_name[GR]
-    tries = [t for t in _own_nodes(gr) if isinstance(t, ast.Try) and t.finalbody]
+    FLAG = 'cancel_on_error'
+    tries = [t for t in _own_nodes(gr) if isinstance(t, ast.Try)]
     consf = f'{F}::{GR}::finally'
-    gather_in_try = [t for t in tries if any(isinstance(a, ast.Await) and pf.call_name(a) == 'asyncio.gather' for s in t.body for a in ast.walk(s))]
+
+    def is_gather(a: ast.AST) -> bool:
+        return isinstance(a, ast.Await) and pf.call_name(a) == 'asyncio.gather'
+    around = [t for t in tries if any(is_gather(a) for s in t.body for a in ast.walk(s))]
+    gather_in_try = [t for t in around if t.finalbody]
     if not gather_in_try:
+        cancels_somewhere = any(isinstance(c, ast.Call) and isinstance(c.func, ast.Attribute) and c.func.attr == 'cancel' for c in ast.walk(gr))
+        ctx.need(not around and not cancels_somewhere, f'{GR}: the gather is not inside a try/finally, but the function handles exceptions / cancels tasks in a form that is not recognised')
         ctx.bad('R4', consf, 'no try/finally encloses the gather: with cancel_on_error=True the unfinished tasks are neither cancelled nor awaited when one fails',
                 m.path, gr.lineno)
         af.blocked(ctx, 'R4', 'R4')
         return
-    ctx.need(len(gather_in_try) == 1, f'{GR}: several try/finally blocks around gather')
+    ctx.need(len(gather_in_try) == 1 and len(around) == 1 and not gather_in_try[0].handlers, f'{GR}: several try blocks / exception handlers around gather')
     tr = gather_in_try[0]
-    # the non-cancelling early return must be guarded by `not cancel_on_error`
+    # the non-cancelling gather must be reached only when cancel_on_error is false
     cfg_full = pf.cfg(gr)
-    tnode_try = [n for n in cfg_full.nodes if n.ast is not None and any(n.ast is s for s in tr.body)]
-    flags = [t for t in cfg_full.nodes if t.kind == 'test' and af.mentions(t.ast, 'cancel_on_error')]
-    guarded = False
-    for t in flags:
-        for lab in ('T', 'F'):
-            if af.implied_on_edge(t.ast, lab, 'cancel_on_error', False):
-                other = 'F' if lab == 'T' else 'T'
-                # every path that avoids the try leaves through `lab`; the try is reached through the other edge
-                if tnode_try and all(af.every_path_uses_edge(cfg_full, x, t, other) or not af.direct(cfg_full, t, x) for x in tnode_try[:1]):
-                    skip = cfg_full.path_avoiding(cfg_full.entry, lambda n: n is cfg_full.exit, lambda n: any(n is x for x in tnode_try),
-                                                  edge_ok=lambda a, b, l2, t=t, lab=lab: not (a is t and l2 == lab))
-                    guarded = skip is None
-    ctx.check(guarded, 'R4', f'{F}::{GR}::cancel_on_error selects the try/finally',
-              'a path with cancel_on_error true returns the gather outside the try/finally: nothing is cancelled on error although asked to', m.path, gr.lineno)
+    in_try = {id(x) for s2 in tr.body + tr.finalbody for x in ast.walk(s2)}
+    reach = cfg_full.reachable_from(cfg_full.entry)
+    plain = [n for n in cfg_full.nodes if n.ast is not None and n.id in reach and n.kind in ('stmt', 'return') and id(n.ast) not in in_try
+             and any(is_gather(a) for a in pf.walk_shallow(n.ast))]
+    sem = _sem_truthy([FLAG])
+    ctx.need(len(pf.assignments(gr).get(FLAG, [])) == 1, f'{GR}: {FLAG} is re-assigned')
+    consg = f'{F}::{GR}::cancel_on_error selects the try/finally'
+    if all(_every_path_forces(cfg_full, n, sem, False, gr) for n in plain):
+        ctx.ok('R4', consg, f'{len(plain)} gather(s) outside the try/finally, reached only when cancel_on_error is false')
+    else:
+        culprit = next(n for n in plain if not _every_path_forces(cfg_full, n, sem, False, gr))
+
+        def says_nothing_or_true(a: pf.Node, lab: str) -> bool:
+            return not (a.kind == 'test' and lab in ('T', 'F') and af.mentions(_xt(gr, a.ast), FLAG) and _forces(_xt(gr, a.ast), lab, sem) is not True)
+        # evidence: a path to the plain gather on which every test of the flag (if any) has found it true
+        wit = cfg_full.path_avoiding(cfg_full.entry, lambda n: n is culprit, lambda n: False, edge_ok=lambda a, b, lab: says_nothing_or_true(a, lab))
+        ctx.need(wit is not None, f'{GR}: whether `{culprit.text()}` (outside the try/finally) can be reached with cancel_on_error true is not decided')
+        ctx.bad('R4', consg, 'a path with cancel_on_error true returns the gather outside the try/finally: nothing is cancelled on error although asked to', m.path, culprit.lineno)
 
     fb = tr.finalbody
     en = _exc_names(fb)
@@ -378,6 +719,9 @@ def _r4(ctx: Ctx, m: pf.Module, tasks_name: Dict[str, str]) -> None:
     loops = [n for s in fb for n in ast.walk(s) if isinstance(n, ast.For) and pf.nsrc(n.iter) == tname and isinstance(n.target, ast.Name)]
     if len(loops) != 1:
         ctx.need(not loops, f'{GR}: several loops over `{tname}` in the finally block')
+        other = any(isinstance(n, (ast.For, ast.While, ast.ListComp, ast.GeneratorExp)) or (isinstance(n, ast.Call) and isinstance(n.func, ast.Attribute) and n.func.attr == 'cancel')
+                    for s in fb for n in ast.walk(s))
+        ctx.need(not other, f'{GR}: the finally block cancels / iterates in a form that is not recognised')
         ctx.bad('R4', consf + '::cancel loop', f'the finally block has no loop over `{tname}`: unfinished tasks are not cancelled on error', m.path, tr.lineno)
         af.blocked(ctx, 'R4', 'R4')
         return
@@ -385,6 +729,8 @@ def _r4(ctx: Ctx, m: pf.Module, tasks_name: Dict[str, str]) -> None:
     H = [n for n in cfg.nodes if n.kind == 'loop' and n.ast is loop][0]
     var = loop.target.id  # type: ignore[union-attr]
     # b1: reached on the exceptional path
+    ctx.need(bool(en) or not any(t.kind == 'test' and cfg.dominated_by(H, lambda n, t=t: n is t) for t in cfg.nodes), f'{GR}: the in-flight exception is not read through sys.exc_info() in the finally block')
+    esem = _sem_truthy(sorted(en))
     ok_reach = True
     why = ''
     for t in cfg.nodes:
@@ -395,20 +741,22 @@ def _r4(ctx: Ctx, m: pf.Module, tasks_name: Dict[str, str]) -> None:
             continue
         lab = labs[0]
         src = pf.nsrc(t.ast)
-        pos = {f'{e} is not None' for e in en} | set(en)
-        neg = {f'{e} is None' for e in en} | {f'not {e}' for e in en}
-        if (src in pos and lab == 'T') or (src in neg and lab == 'F'):
+        forced = _forces(_xt(cfg.fn, t.ast), lab, esem)
+        if forced is True:
             continue
-        if (src in pos and lab == 'F') or (src in neg and lab == 'T'):
+        if forced is False:
             ok_reach = False
             why = f'the clean-up loop runs only when `{src}` is {"false" if lab == "F" else "true"}, i.e. when no exception is in flight'
             continue
         raise AnalysisError(f'{GR}: finally block reaches the cancel loop through unrecognised test `{src}`')
     ctx.check(ok_reach, 'R4', consf + '::runs on error', why + ': on error nothing is cancelled (and on success finished tasks are "cancelled")', m.path, loop.lineno)
     # b2: iteration paths
-    early, uncancelled = _loop_verdict(cfg, loop, {var})
+    early, uncancelled, unclear = _loop_verdict(cfg, loop, {var})
+    kinds: Dict[str, int] = {}
     for last, end, _ in early:
-        ctx.bad('R4', consf + f'::{last.text()}',
+        k = _exit_kind(last)
+        kinds[k] = kinds.get(k, 0) + 1
+        ctx.bad('R4', consf + f'::cancel loop left early by {k}' + (f'#{kinds[k]}' if kinds[k] > 1 else ''),
                 f'`{last.text()}` leaves the clean-up loop at the first task that has already failed: the tasks after it in `{tname}` are neither cancelled nor awaited '
                 f'and the final wait is skipped (asyncio.gather raises as soon as one task fails, so that task is done-with-exception whenever this block runs on an error): '
                 f'work keeps running after bounded_gather2(..., cancel_on_error=True) has raised', m.path, last.lineno)
@@ -419,16 +767,30 @@ def _r4(ctx: Ctx, m: pf.Module, tasks_name: Dict[str, str]) -> None:
         ctx.bad('R4', consf + '::cancels unfinished tasks', f'an iteration path ({" -> ".join(n.text() for n, _ in p[1:]) or "empty body"}) neither calls {var}.cancel() '
                 f'nor has established {var}.done(): running tasks survive the error', m.path, loop.lineno)
     else:
+        ctx.need(not unclear, f'{GR}: an iteration of the clean-up loop ({" -> ".join(n.text() for n, _ in unclear[0][1:]) if unclear else ""}) neither cancels the task nor tests '
+                 f'{var}.done() in a recognised form')
         ctx.ok('R4', consf + '::cancels unfinished tasks', f'every iteration path calls {var}.cancel() or has tested {var}.done()')
     # b3: all tasks awaited after the loop
-    waits = [n for n in cfg.nodes if n.ast is not None and n.kind == 'stmt' and any(
-        isinstance(a, ast.Await) and ((pf.call_name(a) == 'asyncio.wait' and [pf.nsrc(x) for x in a.value.args] == [tname])
-                                      or (pf.call_name(a) == 'asyncio.gather' and [pf.nsrc(x) for x in a.value.args] == [f'*{tname}']
-                                          and any(k.arg == 'return_exceptions' and pf.nsrc(k.value) == 'True' for k in a.value.keywords)))
-        for a in ast.walk(n.ast))]
+    def waits_all(a: ast.AST) -> bool:
+        return isinstance(a, ast.Await) and isinstance(a.value, ast.Call) and (
+            (pf.call_name(a) == 'asyncio.wait' and [pf.nsrc(_res(cfg.fn, x)) for x in a.value.args] == [tname] and not any(k.arg in ('timeout', 'return_when') for k in a.value.keywords))
+            or (pf.call_name(a) == 'asyncio.gather' and [pf.nsrc(x) for x in a.value.args] == [f'*{tname}']
+                and any(k.arg == 'return_exceptions' and pf.nsrc(k.value) == 'True' for k in a.value.keywords)))
+    waits = [n for n in cfg.nodes if n.ast is not None and n.kind == 'stmt' and any(waits_all(a) for a in ast.walk(n.ast))]
+    nsem = _sem_nonempty(tname)
+
+    def empty_edge(a: pf.Node, lab: str) -> bool:
+        return a.kind == 'test' and lab in ('T', 'F') and _forces(_xt(cfg.fn, a.ast), lab, nsem) is False
     skip = cfg.path_avoiding(H, lambda n: n is cfg.exit, lambda n: any(n is x for x in waits),
-                             edge_ok=lambda a, b, lab: not (a.kind == 'test' and pf.nsrc(a.ast) == tname and lab == 'F') and not (a is H and lab == 'T'))
-    ctx.check(bool(waits) and skip is None, 'R4', consf + '::awaits all tasks',
+                             edge_ok=lambda a, b, lab: not empty_edge(a, lab) and not (a is H and lab == 'T'))
+    if skip is not None:
+        # evidence only when the path that skips the wait does not suspend at all (an await in a form that is not recognised may be the wait)
+        after = cfg.reachable_from(H, edge_ok=lambda a, b, lab: not (a is H and lab == 'T'))
+        others = [n for n in cfg.nodes if n.id in after and n is not H and n.ast is not None and pf.node_has_await(n) and not any(n is x for x in waits) and n.kind != 'with']
+        on_path = [n for n in skip if n.ast is not None and pf.node_has_await(n) and n.kind != 'with']
+        ctx.need(not on_path and not (others and not waits), f'{GR}: after the cancel loop `{(on_path or others)[0].text() if (on_path or others) else ""}` suspends in a form that is not recognised as '
+                 f'waiting for all of `{tname}`')
+    ctx.check(skip is None, 'R4', consf + '::awaits all tasks',
               f'after cancelling, some path leaves the finally block without `await asyncio.wait({tname})`: cancelled tasks are still running (their clean-up has not '
               f'finished) when bounded_gather2 raises', m.path, loop.lineno)
 
@@ -556,21 +918,33 @@ def _r10(ctx: Ctx, m: pf.Module, tasks_name: Dict[str, str]) -> None:
 
 def _r5(ctx: Ctx, m: pf.Module) -> None:
     PEND = 'self._pending'
+    EXC = 'self._exception'
+    pend_nonempty = _sem_nonempty(PEND)
+    pend_none = _sem_none(PEND)
+    exc_set = _sem_truthy([EXC])
+
+    def mentions(fn: Optional[pf.FuncDef], test: ast.AST, text: str) -> bool:
+        return af.mentions(_xt(fn, test), text)
+
     # __aexit__
     ex = m.func(f'{OBG}.__aexit__')
     cfg = pf.cfg(ex)
-    ws = [t for t in cfg.nodes if t.kind == 'test' and pf.nsrc(t.ast) in (PEND, f'{PEND} is not None and len({PEND}) > 0', f'len({PEND}) > 0')]
-    loops = [n for n in _own_nodes(ex) if isinstance(n, ast.While) and any(n.test is t.ast for t in ws)]
+    whiles = [n for n in _own_nodes(ex) if isinstance(n, ast.While)]
+    loops = [n for n in whiles if mentions(ex, n.test, PEND)]
     cons = f'{F}::{OBG}.__aexit__::leaves only when nothing is pending'
     if not loops:
-        ifs = [n for n in _own_nodes(ex) if isinstance(n, ast.If) and any(n.test is t.ast for t in ws)]
-        ctx.need(bool(ifs) or not ws, f'{OBG}.__aexit__: unrecognised use of {PEND}')
+        ifs = [n for n in _own_nodes(ex) if isinstance(n, ast.If) and mentions(ex, n.test, PEND)]
+        ctx.need(bool(ifs) and not whiles and not any(isinstance(n, (ast.For, ast.AsyncFor)) for n in _own_nodes(ex)),
+                 f'{OBG}.__aexit__: no `while` re-checks {PEND} and the way it waits is not recognised')
         ctx.bad('R5', cons, f'__aexit__ does not loop `while {PEND}`: _done_event.wait() also returns when the event was set and more tasks were submitted afterwards, '
                 'so the context manager can exit (and raise) while background tasks are still running', m.path, ex.lineno)
         af.blocked(ctx, 'R5', 'R5')
     else:
         ctx.need(len(loops) == 1, f'{OBG}.__aexit__: several `while {PEND}` loops')
         Wn = af.test_node(cfg, loops[0].test)
+        ctx.need(_forces(_xt(ex, loops[0].test), 'F', pend_nonempty) is False and not loops[0].orelse,
+                 f'{OBG}.__aexit__: leaving `while {pf.nsrc(loops[0].test)}` is not recognised as "nothing is pending"')
+        ctx.need(not any(isinstance(x, ast.Break) for s2 in loops[0].body for x in ast.walk(s2)), f'{OBG}.__aexit__: `break` inside the pending loop (not analysed)')
 
         def edge_ok(a: pf.Node, b: pf.Node, lab: str) -> bool:
             if a is Wn and lab == 'F':
@@ -587,77 +961,136 @@ def _r5(ctx: Ctx, m: pf.Module) -> None:
                   m.path, ex.lineno)
         # body of the loop waits for the event
         waits = [a for s in loops[0].body for a in ast.walk(s) if isinstance(a, ast.Await) and (pf.call_name(a) or '').endswith('_done_event.wait')]
+        if not waits:
+            ctx.need(not any(isinstance(a, ast.Await) for s2 in loops[0].body for a in ast.walk(s2)), f'{OBG}.__aexit__: the pending loop suspends, but not in `await self._done_event.wait()` (not recognised)')
         ctx.check(bool(waits), 'R5', f'{F}::{OBG}.__aexit__::waits for the event', f'the `while {PEND}` loop does not await _done_event.wait(): it spins without yielding',
                   m.path, loops[0].lineno)
     # raises the stored exception at the end
-    raises = [n for n in cfg.nodes if n.kind == 'raise' and pf.nsrc(n.ast) == 'raise self._exception']
-    g = [t for t in cfg.nodes if t.kind == 'test' and pf.nsrc(t.ast) in ('self._exception', 'self._exception is not None')]
-    ok = len(raises) == 1 and len(g) >= 1 and af.every_path_uses_edge(cfg, raises[0], g[-1], 'T') and \
-        cfg.path_avoiding(g[-1], lambda n: n is cfg.exit, lambda n: False, edge_ok=lambda a, b, lab: not (a is g[-1] and lab == 'F')) is None
-    ctx.check(ok, 'R5', f'{F}::{OBG}.__aexit__::raises the first exception', '__aexit__ does not end with `if self._exception: raise self._exception`: a failed '
+    raises = [n for n in cfg.nodes if n.kind == 'raise' and isinstance(n.ast, ast.Raise) and n.ast.exc is not None and pf.nsrc(_res(ex, n.ast.exc)) == EXC]
+    consr = f'{F}::{OBG}.__aexit__::raises the first exception'
+    okr = False
+    if len(raises) >= 1:
+        # the exit is reached only on an edge that says "no exception stored"; the raise only on one that says "stored"
+        def stored_edge(a: pf.Node, lab: str, val: bool) -> bool:
+            return a.kind == 'test' and lab in ('T', 'F') and _forces(_xt(ex, a.ast), lab, exc_set) is val
+        silent = cfg.path_avoiding(cfg.entry, lambda n: n is cfg.exit, lambda n: False, edge_ok=lambda a, b, lab: not stored_edge(a, lab, False))
+        okr = silent is None and all(cfg.path_avoiding(cfg.entry, lambda n, r=r: n is r, lambda n: False, edge_ok=lambda a, b, lab: not stored_edge(a, lab, True)) is None for r in raises)
+    if not okr:
+        reads = [x for x in _own_nodes(ex) if isinstance(x, ast.Attribute) and isinstance(x.ctx, ast.Load) and pf.nsrc(x) == EXC]
+        other_raise = [n for n in cfg.nodes if n.kind == 'raise' and isinstance(n.ast, ast.Raise) and n.ast.exc is not None and not any(n is r for r in raises)]
+        tested = [t for t in cfg.nodes if t.kind == 'test' and mentions(ex, t.ast, EXC) and af.direct(cfg, t, cfg.exit)]
+        # evidence: the stored exception is never raised (no `raise self._exception` in any form), or the normal exit does not depend on it
+        ctx.need(not raises and not other_raise and (not reads or not tested) or (bool(raises) and not [t for t in tested if any(af.direct(cfg, t, r) for r in raises)]),
+                 f'{OBG}.__aexit__: how the stored exception is raised at the end is not recognised')
+    ctx.check(okr, 'R5', consr, '__aexit__ does not end with `if self._exception: raise self._exception`: a failed '
               'background task goes unreported', m.path, ex.lineno)
 
     # first exception kept
     for qn in (f'{OBG}.__aexit__', f'{OBG}.call.run_and_cleanup'):
         fn = m.func(qn)
         c2 = pf.cfg(fn)
-        wr = af.stmt_nodes(c2, lambda n: af.writes_attr(n, 'self._exception'))
-        ctx.need(wr, f'{qn}: no write of self._exception')
+        wr = af.stmt_nodes(c2, lambda n: af.writes_attr(n, EXC))
+        ctx.need(wr, f'{qn}: no write of {EXC}')
+        nw: Dict[str, int] = {}
         for Wx in wr:
-            cons = f'{F}::{qn}::{Wx.text()}'
-            gs = [t for t in c2.nodes if t.kind == 'test' and af.mentions(t.ast, 'self._exception')]
+            role = 'stores the exception'
+            nw[role] = nw.get(role, 0) + 1
+            cons = f'{F}::{qn}::{role}' + (f'#{nw[role]}' if nw[role] > 1 else '')
+            gs = [t for t in c2.nodes if t.kind == 'test' and mentions(fn, t.ast, EXC)]
             okg = False
+            torn = False
             for t in gs:
                 for lab in ('T', 'F'):
-                    if af.every_path_uses_edge(c2, Wx, t, lab) and af.direct(c2, t, Wx, lab) and \
-                            (af.implied_on_edge(t.ast, lab, 'self._exception is None', True) or af.implied_on_edge(t.ast, lab, 'self._exception is not None', False)
-                             or af.implied_on_edge(t.ast, lab, 'self._exception', False)):
+                    if af.every_path_uses_edge(c2, Wx, t, lab) and af.direct(c2, t, Wx, lab) and _forces(_xt(fn, t.ast), lab, exc_set) is False:
                         if not any(pf.node_has_await(x) for x in af.between(c2, t, Wx, lab)):
                             okg = True
-            ctx.check(okg, 'R5', cons, 'the stored exception is overwritten without (atomically) testing that none is stored yet: a later exception replaces the first one, '
+                        else:
+                            torn = True
+            if not okg and not torn:
+                # evidence only when no test of the stored exception can lie on the way to the write at all
+                ctx.need(not any(af.direct(c2, t, Wx) for t in gs), f'{qn}: `{Wx.text()}` is preceded by a test of {EXC} that is not understood')
+            ctx.check(okg, 'R5', cons, f'`{Wx.text()}`: the stored exception is overwritten without (atomically) testing that none is stored yet: a later exception replaces the first one, '
                       'which is the one __aexit__ must raise', m.path, Wx.lineno)
 
     # call registers
     call = m.func(f'{OBG}.call')
     c3 = pf.cfg(call)
+
+    def pend_mutation(n: pf.Node, attrs: Sequence[str]) -> bool:
+        return any(isinstance(c.func, ast.Attribute) and c.func.attr in attrs and pf.nsrc(c.func.value) == PEND for c in pf.node_calls(n))
     reg = af.stmt_nodes(c3, lambda n: n.kind == 'stmt' and isinstance(n.ast, ast.Assign) and any(isinstance(t, ast.Subscript) and pf.nsrc(t.value) == PEND for t in n.ast.targets))
+    reg_other = af.stmt_nodes(c3, lambda n: pend_mutation(n, ('update', 'setdefault', '__setitem__')) or (isinstance(n.ast, (ast.Assign, ast.AugAssign)) and af.writes_attr(n, PEND)))
     clr = af.stmt_nodes(c3, lambda n: any(pf.dotted(c.func) == 'self._done_event.clear' for c in pf.node_calls(n)))
     rets = [n for n in c3.nodes if n.kind == 'return' and n.id in c3.reachable_from(c3.entry)]
-    ok = len(reg) == 1 and len(rets) >= 1 and all(c3.dominated_by(r, lambda n: n is reg[0]) for r in rets)
+    ctx.need(not reg_other and len(reg) <= 1 and len(rets) >= 1, f'{OBG}.call: {PEND} is written in a form that is not recognised')
+    ok = len(reg) == 1 and all(c3.dominated_by(r, lambda n: n is reg[0]) for r in rets)
     if ok:
         v = reg[0].ast.value  # type: ignore[union-attr]
-        tv = pf.resolve_expr(call, v)
-        ok = isinstance(tv, ast.Call) and pf.dotted(tv.func) in ('asyncio.create_task', 'asyncio.ensure_future') and \
-            all(pf.nsrc(r.ast.value) == pf.nsrc(v) for r in rets)  # type: ignore[union-attr]
+        tv = _res(call, v)
+        ctx.need(isinstance(tv, ast.Call) and pf.dotted(tv.func) in TASK_MAKERS, f'{OBG}.call: what is stored in {PEND} is not recognised as the task just created')
+        for r in rets:
+            rv = _res(call, r.ast.value) if r.ast.value is not None else None  # type: ignore[union-attr]
+            same = rv is tv or (r.ast.value is not None and pf.nsrc(r.ast.value) == pf.nsrc(v))  # type: ignore[union-attr]
+            if not same:
+                ctx.need(isinstance(rv, ast.Call) and pf.dotted(rv.func) in TASK_MAKERS, f'{OBG}.call: `{r.text()}` does not return the registered task in a recognised form')
+                ok = False
     ctx.check(ok, 'R5', f'{F}::{OBG}.call::registers the task', 'call() returns a task that is not recorded in self._pending: __aexit__ does not wait for it', m.path, call.lineno)
-    okc = len(clr) >= 1 and all(c3.dominated_by(r, lambda n: any(n is x for x in clr)) for r in rets) and isinstance(call, ast.FunctionDef)
+    ctx.need(isinstance(call, ast.FunctionDef), f'{OBG}.call is a coroutine now: it may suspend between registering the task and clearing the event (not analysed)')
+    okc = len(clr) >= 1 and all(c3.dominated_by(r, lambda n: any(n is x for x in clr)) for r in rets)
+    if not okc and not clr:
+        ctx.need(not any(isinstance(c, ast.Call) and isinstance(c.func, ast.Attribute) and c.func.attr == 'clear' for c in ast.walk(call)), f'{OBG}.call: an event is cleared in a form that is not recognised')
     ctx.check(okc, 'R5', f'{F}::{OBG}.call::clears the done event', 'call() does not clear _done_event (or may suspend before doing so): __aexit__/wait see "done" while the new '
               'task is pending', m.path, call.lineno)
-    sh = [t for t in c3.nodes if t.kind == 'test' and pf.nsrc(t.ast) == f'{PEND} is None']
-    oks = len(sh) == 1 and len(reg) == 1 and af.every_path_uses_edge(c3, reg[0], sh[0], 'F') and any(n.kind == 'raise' and af.every_path_uses_edge(c3, n, sh[0], 'T') for n in c3.nodes)
+    oks = len(reg) == 1 and _every_path_forces(c3, reg[0], pend_none, False, call) and \
+        any(n.kind == 'raise' and _every_path_forces(c3, n, pend_none, True, call) for n in c3.nodes)
+    if not oks:
+        ctx.need(not any(t.kind == 'test' and mentions(call, t.ast, PEND) for t in c3.nodes), f'{OBG}.call: the test of {PEND} ahead of the registration is not understood')
     ctx.check(oks, 'R5', f'{F}::{OBG}.call::refuses after shutdown', 'call() does not raise when the pool is shut down (self._pending is None)', m.path, call.lineno)
 
     # run_and_cleanup deregisters
     rc = m.func(f'{OBG}.call.run_and_cleanup')
     c4 = pf.cfg(rc)
-    dels = af.stmt_nodes(c4, lambda n: isinstance(n.ast, ast.Delete) and any(isinstance(t, ast.Subscript) and pf.nsrc(t.value) == PEND for t in n.ast.targets))
-    none_t = [t for t in c4.nodes if t.kind == 'test' and pf.nsrc(t.ast) == f'{PEND} is None']
-    leak = c4.path_avoiding(c4.entry, lambda n: n is c4.exit, lambda n: any(n is d for d in dels),
-                            edge_ok=lambda a, b, lab: not (any(a is t for t in none_t) and lab == 'T'))
+    dels = af.stmt_nodes(c4, lambda n: (isinstance(n.ast, ast.Delete) and any(isinstance(t, ast.Subscript) and pf.nsrc(t.value) == PEND for t in n.ast.targets))
+                         or pend_mutation(n, ('pop',)))
+    unknown_mut = af.stmt_nodes(c4, lambda n: pend_mutation(n, ('clear', 'popitem', 'update', 'setdefault')) or (isinstance(n.ast, (ast.Assign, ast.AugAssign)) and af.writes_attr(n, PEND)))
+    ctx.need(not unknown_mut, f'{OBG}.call.run_and_cleanup: `{unknown_mut[0].text() if unknown_mut else ""}` changes {PEND} in a form that is not recognised')
+
+    def gone_edge(a: pf.Node, lab: str) -> bool:  # the pool is shut down (or nothing is registered any more): nothing to deregister
+        return a.kind == 'test' and lab in ('T', 'F') and (_forces(_xt(rc, a.ast), lab, pend_none) is True or _forces(_xt(rc, a.ast), lab, pend_nonempty) is False)
+    leak = c4.path_avoiding(c4.entry, lambda n: n is c4.exit, lambda n: any(n is d for d in dels), edge_ok=lambda a, b, lab: not gone_edge(a, lab))
+    if leak is not None:
+        tests_on = [n for n in leak if n.kind == 'test' and mentions(rc, n.ast, PEND)]
+        ctx.need(not tests_on, f'{OBG}.call.run_and_cleanup: the test `{tests_on[0].text() if tests_on else ""}` on the way out is not understood')
     ctx.check(bool(dels) and leak is None, 'R5', f'{F}::{OBG}.call.run_and_cleanup::deregisters',
               'a finished background task can return without removing itself from self._pending (and the pool is not shut down): __aexit__ waits for ever'
               + (f' (via `{leak[-2].text()}`)' if leak and len(leak) > 1 else ''), m.path, rc.lineno)
     sets = af.stmt_nodes(c4, lambda n: any(pf.dotted(c.func) == 'self._done_event.set' for c in pf.node_calls(n)))
-    emp = [t for t in c4.nodes if t.kind == 'test' and pf.nsrc(t.ast) in (f'not {PEND}', f'len({PEND}) == 0')]
-    oke = len(emp) == 1 and len(sets) >= 1 and len(dels) >= 1 and c4.dominated_by(emp[0], lambda n: any(n is d for d in dels)) and \
-        af.must_pass(c4, emp[0], lambda n: n is c4.exit, lambda n: any(n is s for s in sets), first_label='T') is None
-    ctx.check(oke, 'R5', f'{F}::{OBG}.call.run_and_cleanup::signals done', 'the last finishing task does not set _done_event: __aexit__ never wakes up', m.path, rc.lineno)
+    emp = [(t, lab) for t in c4.nodes if t.kind == 'test' and t.id in c4.reachable_from(c4.entry) for lab in ('T', 'F')
+           if _forces(_xt(rc, t.ast), lab, pend_nonempty) is False and _forces(_xt(rc, t.ast), lab, pend_none) is not True
+           and c4.dominated_by(t, lambda n: any(n is d for d in dels))]
+    conss = f'{F}::{OBG}.call.run_and_cleanup::signals done'
+    if not sets:
+        ctx.need(not any(isinstance(c, ast.Call) and isinstance(c.func, ast.Attribute) and c.func.attr == 'set' for c in ast.walk(rc)), f'{OBG}.call.run_and_cleanup: an event is set in a form that is not recognised')
+        ctx.bad('R5', conss, 'the last finishing task does not set _done_event: __aexit__ never wakes up', m.path, rc.lineno)
+    elif emp and dels:
+        oke = all(af.must_pass(c4, t, lambda n: n is c4.exit, lambda n: any(n is s2 for s2 in sets), first_label=lab) is None for t, lab in emp)
+        ctx.check(oke, 'R5', conss, 'the last finishing task does not set _done_event: __aexit__ never wakes up', m.path, rc.lineno)
+    else:
+        # no recognised "nothing pending" test: fine when the event is set on every way out after the deregistration
+        always = bool(dels) and all(af.must_pass(c4, d, lambda n: n is c4.exit, lambda n: any(n is s2 for s2 in sets)) is None for d in dels)
+        ctx.need(always, f'{OBG}.call.run_and_cleanup: the condition under which _done_event is set is not recognised')
+        ctx.ok('R5', conss, 'the event is set on every way out after the deregistration')
     # catch-alls of the wrapper: CancelledError first (task cancellation is completion), then everything else triggers shutdown
     trs = [t for t in af.body_no_doc(rc) if isinstance(t, ast.Try)]
     ctx.need(len(trs) == 1, f'{OBG}.call.run_and_cleanup: expected one try')
     hs = trs[0].handlers
-    okh = len(hs) >= 2 and pf.dotted(hs[0].type) == 'asyncio.CancelledError' and (hs[-1].type is None or pf.dotted(hs[-1].type) == 'BaseException') and \
-        any(isinstance(a, ast.Await) and any(pf.dotted(c.func) == 'self._shutdown' for c in ast.walk(a) if isinstance(c, ast.Call)) for s in hs[-1].body for a in ast.walk(s))
+
+    def shuts(stmts: Sequence[ast.stmt]) -> bool:
+        return any(isinstance(a, ast.Await) and any(pf.dotted(c.func) == 'self._shutdown' for c in ast.walk(a) if isinstance(c, ast.Call)) for s2 in stmts for a in ast.walk(s2))
+    okh = len(hs) >= 2 and pf.dotted(hs[0].type) in ('asyncio.CancelledError', 'CancelledError') and (hs[-1].type is None or pf.dotted(hs[-1].type) == 'BaseException') and shuts(hs[-1].body)
+    if not okh:
+        anywhere = any(isinstance(c, ast.Call) and (pf.dotted(c.func) or '').endswith('_shutdown') for c in ast.walk(rc))
+        ctx.need(not anywhere and bool(hs), f'{OBG}.call.run_and_cleanup: the handlers call _shutdown in a form that is not recognised')
     ctx.check(okh, 'R5', f'{F}::{OBG}.call.run_and_cleanup::failure shuts the pool down', 'a failing background task does not (through a catch-all handler) store the exception and '
               'await self._shutdown(): the remaining tasks are not cancelled', m.path, trs[0].lineno)
 
@@ -668,19 +1101,29 @@ def _r5(ctx: Ctx, m: pf.Module) -> None:
     ctx.need(len(loops) == 1, f'{OBG}._shutdown: expected one loop over {PEND}')
     lp = loops[0]
     vars_ = {x.id for x in ast.walk(lp.target) if isinstance(x, ast.Name)}
-    early, uncancelled = _loop_verdict(c5, lp, vars_)
+    early, uncancelled, unclear = _loop_verdict(c5, lp, vars_)
+    kinds: Dict[str, int] = {}
     for last, end, _ in early:
         if last.kind == 'raise' and end is c5.raise_exit:
             ctx.info(f'{F}::{OBG}._shutdown: `{last.text()}` leaves the cancel loop early when a pending task is done with an exception; not counted as a violation because '
                      f'tasks in _pending run run_and_cleanup, which catches every exception and removes itself from _pending before finishing, so the branch is not reachable '
                      f'(same shape as the genuine defect in {GR})')
         else:
-            ctx.bad('R5', f'{F}::{OBG}._shutdown::{last.text()}', f'`{last.text()}` leaves the cancel loop early: the remaining pending tasks are not cancelled', m.path, last.lineno)
+            k = _exit_kind(last)
+            kinds[k] = kinds.get(k, 0) + 1
+            ctx.bad('R5', f'{F}::{OBG}._shutdown::cancel loop left early by {k}' + (f'#{kinds[k]}' if kinds[k] > 1 else ''),
+                    f'`{last.text()}` leaves the cancel loop early: the remaining pending tasks are not cancelled', m.path, last.lineno)
+    if not uncancelled:
+        ctx.need(not unclear, f'{OBG}._shutdown: an iteration of the cancel loop neither cancels the task nor tests done() in a recognised form')
     ctx.check(not uncancelled, 'R5', f'{F}::{OBG}._shutdown::cancels pending tasks',
               'an iteration path neither cancels the pending task nor has established that it is done: shutdown leaves tasks running', m.path, lp.lineno)
     Hn = [n for n in c5.nodes if n.kind == 'loop' and n.ast is lp][0]
     nones = af.stmt_nodes(c5, lambda n: isinstance(n.ast, ast.Assign) and pf.nsrc(n.ast.targets[0]) == PEND and pf.nsrc(n.ast.value) == 'None')
+    other_w = af.stmt_nodes(c5, lambda n: af.writes_attr(n, PEND) and not any(n is x for x in nones))
     sets = af.stmt_nodes(c5, lambda n: any(pf.dotted(c.func) == 'self._done_event.set' for c in pf.node_calls(n)))
+    ctx.need(not other_w, f'{OBG}._shutdown: `{other_w[0].text() if other_w else ""}` writes {PEND} in a form that is not recognised')
+    if not sets:
+        ctx.need(not any(isinstance(c, ast.Call) and isinstance(c.func, ast.Attribute) and c.func.attr == 'set' for c in ast.walk(sd)), f'{OBG}._shutdown: an event is set in a form that is not recognised')
     ok = bool(nones) and bool(sets) and af.must_pass(c5, Hn, lambda n: n is c5.exit, lambda n: any(n is x for x in nones), first_label='F') is None \
         and af.must_pass(c5, Hn, lambda n: n is c5.exit, lambda n: any(n is x for x in sets), first_label='F') is None
     # the cancelled tasks are awaited before the pool is reported done
@@ -694,6 +1137,7 @@ def _r5(ctx: Ctx, m: pf.Module) -> None:
     else:
         ex_aw = [a for a in _own_nodes(m.func(f'{OBG}.__aexit__')) if isinstance(a, ast.Await) and pf.call_name(a) in ('asyncio.wait', 'asyncio.gather')]
         ctx.need(not ex_aw, f'{OBG}.__aexit__ awaits tasks itself (idiom not recognised)')
+        ctx.need(not any(isinstance(a, ast.Await) for a in _own_nodes(sd)), f'{OBG}._shutdown suspends, but not in a recognised wait for the cancelled tasks')
         ctx.bad('R5', consw, '_shutdown cancels the pending tasks, sets self._pending = None and _done_event at once, but never awaits the cancelled tasks (it contains no await '
                 'although its docstring says "wait for them to complete"): __aexit__ wakes up, finds `self._pending` falsy and raises while cancelled background tasks are '
                 'still unwinding (their finally / async-with clean-up runs after the context manager has exited)', m.path, sd.lineno)
@@ -781,6 +1225,7 @@ class _WSModel:
 
         def outcomes(test: ast.AST) -> Set[bool]:
             from engines import absdom
+            test = _xt(self.ex, test)  # boolean locals (`failed = exc_val is not None`) are what they hold
             atoms = absdom.bool_atoms(test)
             free = [absdom.atom_key(x) for x in atoms if atom_value(x) is None]
             res: Set[bool] = set()
@@ -819,14 +1264,29 @@ def _r6(ctx: Ctx, m: pf.Module) -> None:
     cfg = pf.cfg(en)
     rel = af.stmt_nodes(cfg, lambda n: af.node_is_call(n, f'{sem_attr}.release') is not None)
     acq = af.stmt_nodes(cfg, lambda n: af.node_is_call(n, f'{sem_attr}.acquire') is not None)
-    ok = len(rel) == 1 and not acq and cfg.dominated_by(cfg.exit, lambda n: n is rel[0]) and not af.direct(cfg, rel[0], rel[0]) \
-        and not any(pf.node_has_await(n) for n in cfg.nodes if n.ast is not None)
-    ctx.check(ok, 'R6', f'{F}::{WS}.__aenter__', f'__aenter__ does not release `{sem_attr}` exactly once, unconditionally and without suspending', m.path, en.lineno)
+    cons_en = f'{F}::{WS}.__aenter__'
+    by_name = [c for c in ast.walk(en) if isinstance(c, ast.Call) and isinstance(c.func, ast.Attribute) and c.func.attr in ('release', 'acquire')]
+    if not rel:
+        # evidence only when nothing in __aenter__ releases anything
+        ctx.need(not by_name, f'{WS}.__aenter__: `{pf.nsrc(by_name[0]) if by_name else ""}` is not recognised as the release of `{sem_attr}`')
+        ctx.bad('R6', cons_en, f'__aenter__ does not release `{sem_attr}` exactly once, unconditionally and without suspending', m.path, en.lineno)
+    else:
+        ctx.need(not acq and len(by_name) == len([c for n in rel for c in pf.node_calls(n) if pf.dotted(c.func) == f'{sem_attr}.release']),
+                 f'{WS}.__aenter__: acquires / releases in a form that is not recognised')
+        once = len(rel) == 1 and cfg.dominated_by(cfg.exit, lambda n: n is rel[0]) and not af.direct(cfg, rel[0], rel[0])
+        twice_rel = any(af.direct(cfg, a, b) for a in rel for b in rel)
+        skip = cfg.path_avoiding(cfg.entry, lambda n: n is cfg.exit, lambda n: any(n is x for x in rel))
+        ctx.need(once or twice_rel or skip is not None, f'{WS}.__aenter__: the release of `{sem_attr}` is not recognised as happening exactly once')
+        ctx.need(not once or not any(pf.node_has_await(n) for n in cfg.nodes if n.ast is not None), f'{WS}.__aenter__ suspends (not analysed)')
+        ctx.check(once, 'R6', cons_en, f'__aenter__ does not release `{sem_attr}` exactly once, unconditionally and without suspending', m.path, en.lineno)
     ex = af.method(m, cls, '__aexit__')
     cfg = pf.cfg(ex)
     acq = af.stmt_nodes(cfg, lambda n: any(isinstance(a, ast.Await) and pf.call_name(a) == f'{sem_attr}.acquire' for a in ast.walk(n.ast)))
     rel = af.stmt_nodes(cfg, lambda n: af.node_is_call(n, f'{sem_attr}.release') is not None)
     ctx.need(not rel, f'{WS}.__aexit__ releases the semaphore (idiom not recognised)')
+    all_acq = [c for c in ast.walk(ex) if isinstance(c, ast.Call) and isinstance(c.func, ast.Attribute) and c.func.attr in ('acquire', 'release')]
+    n_rec = sum(1 for n in acq for a in ast.walk(n.ast) if isinstance(a, ast.Await) and pf.call_name(a) == f'{sem_attr}.acquire')
+    ctx.need(len(all_acq) == n_rec, f'{WS}.__aexit__: `{pf.nsrc(all_acq[0]) if all_acq else ""}` acquires / releases in a form that is not recognised (alias, not awaited, ...)')
     twice = any(af.direct(cfg, a, b) for a in acq for b in acq)
     cons = f'{F}::{WS}.__aexit__'
     # the condition under which the slot is taken back is evaluated per use: constructor flags come from the call site (or the default), the
@@ -902,11 +1362,13 @@ def _holder_verdict(m: pf.Module, c: ast.Call, fn: Optional[pf.FuncDef]) -> Tupl
 
 
 def _r7(ctx: Ctx, m: pf.Module) -> None:
+    r7seen: Dict[str, int] = {}
     for c, fn, q in _sema_sites(m, GATHERERS):
-        a0 = pf.expand_locals(fn, c.args[0]) if fn is not None and isinstance(c.args[0], ast.Name) and len(pf.assignments(fn).get(c.args[0].id, [])) == 1 \
-            and c.args[0].id not in [a.arg for a in fn.args.args] else c.args[0]
-        cons = f'{F}::{q}::{pf.dotted(c.func)}({pf.nsrc(a0)}, ...)'
         kind, why = _holder_verdict(m, c, fn)
+        role = {'fresh': '<fresh semaphore>', 'param': '<parameter>', 'held': '<held semaphore>'}.get(kind, '<?>')
+        base = f'{F}::{q}::{pf.dotted(c.func)}({role}, ...)'
+        r7seen[base] = r7seen.get(base, 0) + 1
+        cons = base + (f'#{r7seen[base]}' if r7seen[base] > 1 else '')
         if kind == 'fresh':
             ctx.bad('R7', cons, f'the semaphore handed to {pf.dotted(c.func)} is un-held ({why}): {WS}.__aenter__ releases a slot the caller never acquired, so the value becomes '
                     f'N+1 before the first task starts and N+1 partial functions run at once (parallelism=1 runs two at a time)', m.path, c.lineno)
@@ -1065,10 +1527,12 @@ def _r8_r9(ctx: Ctx, m: pf.Module) -> None:
             cons8 = f'{F}::{qn}::parameter {p} reaches the machinery'
             tests_p = [t for t in cfg.nodes if t.kind == 'test' and af.mentions(t.ast, p)]
             ignored = None
+            unclear = None
             for r in rets:
                 rv = r.ast.value  # type: ignore[union-attr]
                 if rv is None:
                     continue
+                rv = _res(fn, rv)   # `result = await bounded_gather2(...)` ... `return result`
                 rcalls = [c for c in ast.walk(rv) if isinstance(c, ast.Call) and pf.dotted(c.func) in fam]
                 fwd = False
                 for c in rcalls:
@@ -1083,9 +1547,23 @@ def _r8_r9(ctx: Ctx, m: pf.Module) -> None:
                     continue
                 if not rcalls and _empty_guard(cfg, r, vararg) and isinstance(rv, (ast.List, ast.Tuple)) and not rv.elts:
                     continue  # nothing to run: `if not pfs: return []`
-                ignored = (r, w)
+                # evidence: a way to this return on which the parameter is not even read (logging apart); a path that reads it in a form that
+                # is not understood is not evidence
+                def reads_p(n: pf.Node) -> bool:
+                    if n.ast is None or n is r or n.kind == 'test':
+                        return False
+                    if isinstance(n.ast, ast.Expr) and isinstance(n.ast.value, ast.Call) and (pf.dotted(n.ast.value.func) or '').split('.')[0] in ('log', 'logging', 'logger', 'print', 'warnings'):
+                        return False
+                    return any(isinstance(x, ast.Name) and x.id == p and isinstance(x.ctx, ast.Load) for e in pf.node_exprs(n) for x in ast.walk(e))
+                w2 = cfg.path_avoiding(cfg.entry, lambda n, r=r: n is r, lambda n: any(n is t for t in tests_p) or reads_p(n))
+                if w2 is None or any(isinstance(x, ast.Name) and x.id == p for x in ast.walk(rv)):
+                    unclear = r
+                    continue
+                ignored = (r, w2)
                 break
-            if ignored is None:
+            if ignored is None and unclear is not None:
+                declined.append(f'{qn}: `{p}` is read on the way to `{unclear.text()[:80]}` but does not reach the gather machinery in a recognised form')
+            elif ignored is None:
                 ctx.ok('R8', cons8, 'forwarded or tested on every value-returning path')
             else:
                 r, w = ignored
@@ -1153,7 +1631,7 @@ def run(ctx: Ctx) -> None:
                     'reaches its cancel loop without a suspension point', 2)
     ctx.assume('asyncio.Semaphore.release() is unbounded; asyncio.gather propagates the first exception as soon as it happens and does not cancel the other awaitables')
     ctx.assume('callers of bounded_gather2* / OnlineBoundedGather2 that receive a semaphore hold one slot of it (the protocol WithoutSemaphore implements)')
-    m = pf.load(F)
+    m = _prepared(pf.load(F))
     ctx.unit('files')
     _r1(ctx, m)
     _r2(ctx, m)
